@@ -426,7 +426,8 @@ KNOWN_STR = ATTRS + TYPES + NAMEPOOL
 IMPORTS = ("From TxV Require Import Core.Base Core.Show Gen.SrcRrel Model.RrelSyntax Model.Rrel.\nOpen Scope string_scope.\n"
            + "\n".join("Definition k_%s : list N := %s." % (x, core.coq_str(x)) for x in KNOWN_STR)
            + "\nDefinition runq F m sq o names T px : string := (show_fres (find F m (key_has_first src_facts) sq o names T px) ++ \"|\" ++ "
-             "show_bool (find_hit F m (key_has_first src_facts) sq o names T))%string.")
+             "show_bool (find_hit F m (key_has_first src_facts) sq o names T) ++ \"|\" ++ "
+             "show_bool (find_certified F m (key_has_first src_facts) sq o names T))%string.")
 
 
 def fuel(rows, names):
@@ -885,7 +886,7 @@ def run(chk):
                 mv, sq, names = model_res[ci][qi]
                 if mv is None:
                     continue
-                mres, mhit = mv.split("|")
+                mres, mhit, mcert = mv.split("|")
                 r = res["r"]
                 desc = {"model_text": c["model"], "xrefs": c["xrefs"], "post": c["post"], "start": q["start"], "name": q["name"],
                         "split": q.get("split"), "expr": q["expr"], "cls": q["cls"], "use_proxy": q["proxy"], "corpus": c.get("corpus")}
@@ -898,6 +899,11 @@ def run(chk):
                 if mhit == "F":
                     nohit += 1
                     chk.stat("search_without_pruning")
+                if mres == "None" and siblings_unique(rows) and not has_post(rows):
+                    chk.stat("not_found_certified" if mcert == "T" else "not_found_uncertified")
+                    if mcert != "T":
+                        disagreements.append({"case": desc, "impl": r, "model": "the visited set of the failed search does not pass closure_ok "
+                                              "(C11_complete_certified does not apply)"})
                 if mres == "OOF":
                     disagreements.append({"case": desc, "impl": r, "model": "model ran out of fuel"})
                 elif mres != r:
